@@ -306,6 +306,50 @@ func c19Run(b *core.B) {
 		}
 	}
 
+	// an exhausted iterator stays exhausted: more calls of Next, and a second loop over an
+	// iterator kept in a variable, yield nothing
+	for _, mk := range []struct {
+		name string
+		it   func() iterators.Iterator
+		tmpl string
+	}{
+		{"until(0)", func() iterators.Iterator { return iterators.Until(0) }, "until(0)"},
+		{"until(3)", func() iterators.Iterator { return iterators.Until(3) }, "until(3)"},
+		{"range(2, 4)", func() iterators.Iterator { return iterators.Range(2, 4) }, "range(2, 4)"},
+		{"range(4, 2)", func() iterators.Iterator { return iterators.Range(4, 2) }, "range(4, 2)"},
+		{"between(0, 1)", func() iterators.Iterator { return iterators.Between(0, 1) }, "between(0, 1)"},
+		{"between(MaxInt, 5)", func() iterators.Iterator { return iterators.Between(math.MaxInt, 5) }, "between(imax, 5)"},
+		{"between(1, 4)", func() iterators.Iterator { return iterators.Between(1, 4) }, "between(1, 4)"},
+	} {
+		if !mine() || !b.Begin("exhausted stays exhausted: "+mk.name) {
+			continue
+		}
+		b.NonTrivialDistinct()
+		b.Count("exhausted-iterator-asked-again")
+		pan := core.Guard(func() {
+			it := mk.it()
+			n := 0
+			for it.Next() != nil && n < 100 {
+				n++
+			}
+			for k := 0; k < 3; k++ {
+				if v := it.Next(); v != nil {
+					b.Violate("iterator-yields-after-its-end", fmt.Sprintf("%s: after %d elements and nil, call %d of Next() gave %v", mk.name, n, k+1, v))
+					return
+				}
+			}
+			ctx := plush.NewContext()
+			ctx.Set("imax", math.MaxInt)
+			res := render(b, "<% let it = "+mk.tmpl+" %>[<%= for (v) in it { %><%= v %>,<% } %>][<%= for (v) in it { %><%= v %>,<% } %>]", ctx)
+			if res.Pan == nil && (res.Err != nil || !strings.HasSuffix(res.Out, "][]")) {
+				b.Violate("iterator-yields-after-its-end|template", fmt.Sprintf("%s looped over twice: %s", mk.name, res))
+			}
+		})
+		if pan != nil {
+			b.Violate(pan.Sig(), pan.Value)
+		}
+	}
+
 	// len
 	lens := []struct {
 		v    interface{}
